@@ -239,9 +239,10 @@ func (bc *Blockchain) handleConn(v *stratumsrv.Conn) error {
 				c.Jobs = c.Jobs[1:]
 			}
 			c.Jobs = append(c.Jobs, &stratumsrv.MinerJob{
-				JobID: jobid,
-				Block: bl,
-				Seed:  seed,
+				JobID:   jobid,
+				Block:   bl,
+				Seed:    seed,
+				MinDiff: lastMinDiff,
 			})
 			return c.WriteJSON(rpc.ResponseOut{
 				JsonRpc: "2.0",
@@ -411,6 +412,12 @@ func (bc *Blockchain) handleConn(v *stratumsrv.Conn) error {
 				mb := commitment.MiningBlob()
 				powhash := randomvirel.PowHash(mb.GetSeed(), mb.Serialize())
 				blocks, err = bc.blockFound(&jb, [16]byte(powhash[16:]))
+				if errors.Is(err, errLowDifficulty) && !job.MinDiff.IsZero() && block.ValidPowHash([16]byte(powhash[16:]), job.MinDiff) {
+					// The share meets the target this job was sent with. blockFound compares it with what the
+					// merge-mined chains ask for NOW: a chain that has raised its difficulty since the job went
+					// out makes the share worthless for that chain, not a proof-of-work failure of the miner.
+					blocks, err = []stratum.FoundBlockInfo{}, nil
+				}
 				if err != nil {
 					v.WriteJSON(rpc.ResponseOut{
 						JsonRpc: "2.0",
